@@ -2,7 +2,7 @@
 # Rebuild the harness against /repo's current working tree (hooks on: -tags verif).
 # usage: build.sh [race]
 set -euo pipefail
-VERIF=${VERIF_DIR:-/verif}
+VERIF=${VERIF_DIR:-$(cd "$(dirname "$0")" && pwd)}
 REPO=${VERIF_REPO:-/repo}
 export GOFLAGS=-mod=mod GOPROXY=off
 unset GOSUMDB GOTOOLCHAIN || true
